@@ -411,3 +411,19 @@ add({"name": "info_line", "file": "dfs/dfs_catalog.cc",
                (r"outer_os << os\.str\(\);", "/* outer_os << os.str(): the line built above is inserted into the caller's stream as one string */", 1),
                (r"return outer_os;", "return;", 1)],
      "dropped": ["ostream::sentry", "the final insertion of the assembled line into the outer stream"]})
+
+# ---- cmd_list.cc / cmd_type.cc (C01 renderings): the body lambdas ---------------------------------------------------
+add({"name": "list_body", "file": "dfs/cmd_list.cc",
+     "anchor": r"\[\]\(const byte\* body_start,\s*const byte \*body_end,\s*const std::vector<std::string>&\) -> bool",
+     "sig": "static bool list_body(const byte *body_start, const byte *body_end)",
+     "pre": "#define cout_ (&cout_obj)\n", "post": "#undef cout_\n",
+     "rules": [(r"std::cout", "cout_", ">=4"), (r"static_cast<char>\(", "(char)(", 1), ("OSTREAM_CHAIN", "cout_", ">=4"),
+               (r"(for \(const byte \*p = body_start; p < body_end; \+\+p\))", r"\1 LIST_LOOP_CONTRACT", 1)]})
+add({"name": "type_body", "file": "dfs/cmd_type.cc",
+     "anchor": r"\[binary\]\(const byte\* body_start,\s*const byte \*body_end,\s*const std::vector<std::string>&\)",
+     "sig": "static bool type_body(bool binary, const byte *body_start, const byte *body_end)",
+     "pre": "#define cout_ (&cout_obj)\n#define ch (data.d[di_])\n", "post": "#undef cout_\n#undef ch\n",
+     "rules": [(r"std::cout\.write\(reinterpret_cast<const char\*>\(([^)]*(?:\([^)]*\))?[^)]*)\),\s*(.*?)\)\s*\.good\(\)", r"os_write(cout_, (const byte *)(\1), (size_t)(\2))", 2),
+               (r"std::vector<byte> data\(body_start, body_end\);", "struct bytebuf data = bytebuf_from(body_start, body_end);", 1),
+               (r"for \(byte& ch : data\)", "for (size_t di_ = 0; di_ < data.n; ++di_) TYPE_LOOP_CONTRACT", 1),
+               (r"data\.data\(\)", "data.d", 1), (r"data\.size\(\)", "data.n", 1)]})
